@@ -172,7 +172,7 @@ func c17(r *Report) {
 				mu = m
 			}
 		}
-		okKey := mu != nil && mu.Key == lookup.Index && mu.Key == ssa.Value(rr.Params[1])
+		okKey := mu != nil && mu.Key == lookup.Index && isParamVal(mu.Key, rr.Params[1])
 		r.Decide("flow", "(*M/har.Logger).RecordRequest: the ID tested is the ID inserted", okKey, "same value", "the duplicate test and the insertion use different keys", lookup.Pos())
 		// link order: entry.next = tail.next; tail.next = entry; tail = entry
 		var sNextOfEntry, sTailNext, sTail ssa.Instruction
@@ -457,6 +457,13 @@ func c17(r *Report) {
 	})
 
 	r.Guard("C17.R5", "only the recording and resetting functions change the log; exporting alone changes nothing", func() {
+		// the index is created with the logger and replaced by Reset only: an export that
+		// rebuilds it can leave an entry of the ring without its slot
+		fieldWritersRule(r, "har", "Logger", "entries", map[string]bool{"M/har.NewLogger": true, "(*M/har.Logger).Reset": true}, "the entry index is rebuilt outside NewLogger / Reset: an entry that stays in the ring can lose its slot in the index, so its response is ignored, it is never exported, and its ID is accepted a second time")
+		// entry IDs come from the proxy's ID source, which must not repeat: it keeps no state
+		// between calls (a pool that wraps hands out the same IDs again, and the log rejects
+		// the later exchange as a duplicate)
+		statelessRule(r, r.W.Fn("", "newID"), map[string]bool{}, "IDs repeat once the kept state wraps: the log rejects the later exchange as a duplicate ID and attaches its response to the earlier entry")
 		// what an export returns is a function of the ring and the map alone: no branch of
 		// Export / ExportAndReset looks at other logger state (a counter or a generation
 		// number kept beside the list can disagree with it)
@@ -473,7 +480,7 @@ func c17(r *Report) {
 					continue
 				}
 				for v := range w.backSlice(iff.Cond, flowOpt{BinOps: true}) {
-					if fa, isFa := v.(*ssa.FieldAddr); isFa && fa.X == ssa.Value(f.Params[0]) {
+					if fa, isFa := v.(*ssa.FieldAddr); isFa && isParamVal(fa.X, f.Params[0]) {
 						if fo := fieldObj(fa); fo != fEntries && fo != fTail && fo.Name() != "mu" && opWritten(w, fo) {
 							bad = fo.Name()
 							pos = iff.Cond.Pos()
